@@ -149,6 +149,8 @@ def gen_plan(r, index, tier):
                                        sid=ti, cid=ti)
                 steps.append(['drain'])
                 t['steps'] = steps
+                if r.random() < 0.15:
+                    t['abandon'] = r.randrange(1, len(steps) + 1)
         else:
             t['v'] = r.randrange(nv)
         tasks.append(t)
@@ -310,8 +312,18 @@ class OneShot(object):
 class StreamTask(object):
     """Streaming decode over its own SimFile, advanced one sub-plan step at a time."""
 
-    def __init__(self, ti, task, ctx, encs, plan, trace):
+    def __init__(self, ti, task, ctx, encs, plan, trace, inject=False):
         self.ti, self.task, self.ctx, self.plan, self.trace = ti, task, ctx, plan, trace
+        # consumer crash: the first attempt is abandoned (its generator closed) after this many own steps
+        # and the same decode is started afresh; injected in the shared run only
+        self.abandon_after = task.get('abandon') if inject else None
+        self.steps_done = 0
+        self.crashes = 0
+        self._setup(encs)
+
+    def _setup(self, encs):
+        ti, task, ctx, plan, trace = self.ti, self.task, self.ctx, self.plan, self.trace
+        self._encs = encs
         enc, dec, opts = U.codec(task['codec'])
         if task['t'] == 'deep':
             # a deeply nested schemaless element: many decoder frames are parked while other tasks run
@@ -359,6 +371,19 @@ class StreamTask(object):
         """One step of the own sub-plan; returns True while more remains."""
         if self.done:
             return False
+        if self.abandon_after is not None and self.steps_done >= self.abandon_after:
+            self.abandon_after = None
+            self.crashes += 1
+            self.trace.append(['crash', self.ti, self.steps_done])
+            try:
+                self.cons.it.close()        # the consumer goes away in the middle of whatever it was decoding
+            except BaseException as e:      # noqa -- closing a suspended decoder must not raise
+                self.kinds.append('CLOSE-RAISED:%s' % type(e).__name__)
+                self._finish('CLOSE-RAISED')
+                return False
+            self._setup(self._encs)         # ... and a new consumer starts the same decode from the beginning
+            return not self.done
+        self.steps_done += 1
         if self.drain_left is not None:
             if self.drain_left <= 0:
                 self._finish('NO-STOP')
@@ -408,9 +433,9 @@ def deep_bytes(depth, indef):
     return b
 
 
-def make_task(ti, task, ctx, encs, plan, trace):
+def make_task(ti, task, ctx, encs, plan, trace, inject=False):
     if task['t'] in ('stream', 'deep'):
-        return StreamTask(ti, task, ctx, encs, plan, trace)
+        return StreamTask(ti, task, ctx, encs, plan, trace, inject=inject)
     return OneShot(ti, task, ctx, encs, plan, trace)
 
 
@@ -621,7 +646,7 @@ def execute(plan):
 
     def mk(ti, trace_):
         task = plan['tasks'][ti]
-        return make_task(ti, task, ctxs[_slot(task)], encs, plan, trace_)
+        return make_task(ti, task, ctxs[_slot(task)], encs, plan, trace_, inject=True)
 
     if _CAT_REF[0] is None:
         _CAT_REF[0] = _catalogue_reference()
@@ -750,8 +775,10 @@ def execute(plan):
                     check_outcome(ti, res[1], 'threads')
                 check_snapshots('end')
             # (d) scope depth, only when every call completed normally
+            # (an abandoned decoder, like a raising call, leaves its entries on the scope stack: that only
+            # changes the prefix of later log lines, not any outcome, and is not demanded here)
             if all(t.outcome and t.outcome[0] == 'ok' and (len(t.outcome) < 4 or t.outcome[3] == 'STOP')
-                   for t in tasks_run):
+                   and not getattr(t, 'crashes', 0) for t in tasks_run):
                 if str(debug.scope) != scope0:
                     raise W.Violation('debug-scope-leak', scope=str(debug.scope)[:120], initial=scope0[:60])
             # (c) aliasing probe
@@ -789,6 +816,9 @@ def execute(plan):
         ctr['log.messages'] = sink.n
     for t in plan['tasks']:
         ctr['task.%s' % t['t']] = ctr.get('task.%s' % t['t'], 0) + 1
+    crashes = sum(getattr(t, 'crashes', 0) for t in tasks_run)
+    if crashes:
+        ctr['fault.consumer_crash'] = crashes
     if overlapped[0]:
         ctr['probe.tasks_overlapped'] = 1
     res = common.ok_result(trace, ctr, None, overlapped[0])
@@ -936,6 +966,10 @@ def shrink_candidates(plan):
         c['schedule'] = {'mode': 'history', 'order': list(range(len(tasks)))}
         yield c
     for ti, t in enumerate(tasks):
+        if t.get('abandon') is not None:
+            c = copy.deepcopy(plan)
+            del c['tasks'][ti]['abandon']
+            yield c
         if t.get('steps') and len(t['steps']) > 1:
             c = copy.deepcopy(plan)
             c['tasks'][ti]['steps'] = [['drain']]
